@@ -1,3 +1,4 @@
+pub mod c22;
 pub mod c26;
 pub mod c27;
 pub mod c30;
@@ -8,6 +9,7 @@ use crate::core::batch::Property;
 
 pub fn lookup(id: &str) -> Option<Box<dyn Property>> {
     match id {
+        "C22" => Some(Box::new(c22::C22)),
         "C26" => Some(Box::new(c26::C26)),
         "C27" => Some(Box::new(c27::C27)),
         "C30" => Some(Box::new(c30::C30)),
